@@ -87,6 +87,13 @@ def session_cfgs(item):
                     cfg['leverage'] = 1.5
                     cfg['alpha'] = {'kind': 'fixed', 'weights': {'EQ:AAA': 0.6, 'EQ:BBB': -0.4}}
                 yield cfg
+    # the same sessions when a SignalsCollection (look-back 3 and 5) is handed to the session: signals do not decide
+    # when portfolio construction runs
+    for burn in burn_ins(item)[:2]:
+        for kind, wd in (('daily', None), ('weekly', 'WED'), ('end_of_month', None)):
+            yield {'start': item['start'], 'end': item['end'], 'burn_in': burn, 'assets': ASSETS, 'universe': {'kind': 'static'},
+                   'alpha': {'kind': 'fixed', 'weights': WEIGHTS}, 'rebalance': kind, 'weekday': wd, 'long_only': True,
+                   'buffer': 0.05, 'fee': ['pct', '0.001', '0.0005'], 'cash': CASH, 'signals': {'lookbacks': [3, 5]}}
 
 
 def long_cfgs(item):
